@@ -1,5 +1,5 @@
 #!/bin/bash
 # usage: tools/corr.sh <corr-id> [seed] [tier] [extra corr flags]  — developer helper: rebuilds and runs one correspondence stream
 id=$1; seed=${2:-1}; tier=${3:-quick}; shift; shift; shift
-cd /verif && ./check --setup > .work/setup.out 2>&1 || { tail -20 .work/setup.out | cut -c1-300; exit 2; }
-GOMAXPROCS=16 GOMEMLIMIT=8GiB .work/bin/corr -prop $id -tier $tier -seed $seed -oracle lean/.lake/build/bin/oracle -verif /verif -out .work/$id.dev.json "$@" 2> .work/$id.dev.err | cut -c1-420 | tail -14
+V=$(cd "$(dirname "$0")/.." && pwd); cd "$V" && ./check --setup > .work/setup.out 2>&1 || { tail -20 .work/setup.out | cut -c1-300; exit 2; }
+GOMAXPROCS=16 GOMEMLIMIT=8GiB .work/bin/corr -prop $id -tier $tier -seed $seed -oracle lean/.lake/build/bin/oracle -verif "$V" -out .work/$id.dev.json "$@" 2> .work/$id.dev.err | cut -c1-420 | tail -14
